@@ -3,9 +3,9 @@ import ExprModel.Proofs.RefineLoopAll
 import ExprModel.Proofs.RefineFloats
 import ExprModel.Proofs.Walk
 /-
-C13 on top of C01: the blame relation "the location of a node of the tree whose own evaluation fails with
-this class" satisfies the blame obligations of the simulation, hence holds of every failing step of a
-compiled program.
+C13 on top of C01: blame relations for the failing step of a compiled program (`ExactBlame`: THE location the
+instrumented reference evaluator reports for the whole program; `InnerBlame`: the location of some node whose own
+evaluation fails with this class), and the determinism of the dispatch loop (the failing step of a run is unique).
 -/
 set_option linter.unusedVariables false
 namespace ExprModel.Refine
@@ -16,6 +16,15 @@ open ExprModel.Spec
 def InnerBlame (c : Cfg) (root : Node) (e : ErrClass) (l : Loc) : Prop :=
   ∃ m ∈ Node.preorder root, m.loc = l ∧ ∃ ctx σ, (eval (specOf c) ctx m σ).1 = .error e
 
+/-- `(e, l)` is exactly how the located evaluation of the whole tree fails -/
+def ExactBlame (c : Cfg) (root : Node) (e : ErrClass) (l : Loc) : Prop :=
+  (evalLoc (specOf c) [] root {}).1 = .error (e, l)
+
+theorem exactBlame_root (c : Cfg) (root : Node) : BAt (ExactBlame c root) (evalLoc (specOf c) [] root) {} := by
+  intro e l σ' h
+  unfold ExactBlame
+  rw [h]
+
 theorem mem_preorder_self (n : Node) : n ∈ Node.preorder n := by
   rw [ExprModel.preorder_eq]; exact List.mem_cons_self
 
@@ -23,64 +32,268 @@ theorem mem_preorder_child {n x m : Node} (hx : x ∈ n.children) (hm : m ∈ No
   rw [ExprModel.preorder_eq]
   refine List.mem_cons_of_mem _ (List.mem_flatten.2 ⟨Node.preorder x, List.mem_map.2 ⟨x, hx, rfl⟩, hm⟩)
 
-mutual
-theorem AllN.of_sub {p : Node → Prop} (root : Node) (h : ∀ m ∈ Node.preorder root, p m) :
-    ∀ n, (∀ m ∈ Node.preorder n, m ∈ Node.preorder root) → AllN p n
-  | .nil _, hs | .ident .., hs | .int .., hs | .float .., hs | .bool .., hs | .str .., hs | .const .., hs | .pointer _, hs =>
-    h _ (hs _ (mem_preorder_self _))
-  | .unary m o x, hs => ⟨h _ (hs _ (mem_preorder_self _)),
-      AllN.of_sub root h x (fun y hy => hs y (mem_preorder_child (n := .unary m o x) (by simp [Node.children]) hy))⟩
-  | .binary m o l r, hs => ⟨h _ (hs _ (mem_preorder_self _)),
-      AllN.of_sub root h l (fun y hy => hs y (mem_preorder_child (n := .binary m o l r) (by simp [Node.children]) hy)),
-      AllN.of_sub root h r (fun y hy => hs y (mem_preorder_child (n := .binary m o l r) (by simp [Node.children]) hy))⟩
-  | .matches m b l r, hs => ⟨h _ (hs _ (mem_preorder_self _)),
-      AllN.of_sub root h l (fun y hy => hs y (mem_preorder_child (n := .matches m b l r) (by simp [Node.children]) hy)),
-      AllN.of_sub root h r (fun y hy => hs y (mem_preorder_child (n := .matches m b l r) (by simp [Node.children]) hy))⟩
-  | .prop m x nm s, hs => ⟨h _ (hs _ (mem_preorder_self _)),
-      AllN.of_sub root h x (fun y hy => hs y (mem_preorder_child (n := .prop m x nm s) (by simp [Node.children]) hy))⟩
-  | .index m x i, hs => ⟨h _ (hs _ (mem_preorder_self _)),
-      AllN.of_sub root h x (fun y hy => hs y (mem_preorder_child (n := .index m x i) (by simp [Node.children]) hy)),
-      AllN.of_sub root h i (fun y hy => hs y (mem_preorder_child (n := .index m x i) (by simp [Node.children]) hy))⟩
-  | .slice m x f t, hs => ⟨h _ (hs _ (mem_preorder_self _)),
-      AllN.of_sub root h x (fun y hy => hs y (mem_preorder_child (n := .slice m x f t) (by simp [Node.children]) hy)),
-      AllNO.of_sub root h f (fun z hz y hy => hs y (mem_preorder_child (n := .slice m x f t) (by simp [Node.children, hz]) hy)),
-      AllNO.of_sub root h t (fun z hz y hy => hs y (mem_preorder_child (n := .slice m x f t) (by simp [Node.children, hz]) hy))⟩
-  | .method m x nm a s, hs => ⟨h _ (hs _ (mem_preorder_self _)),
-      AllN.of_sub root h x (fun y hy => hs y (mem_preorder_child (n := .method m x nm a s) (by simp [Node.children]) hy)),
-      AllNL.of_sub root h a (fun z hz y hy => hs y (mem_preorder_child (n := .method m x nm a s) (by simp [Node.children, hz]) hy))⟩
-  | .func m nm a f, hs => ⟨h _ (hs _ (mem_preorder_self _)),
-      AllNL.of_sub root h a (fun z hz y hy => hs y (mem_preorder_child (n := .func m nm a f) (by simp [Node.children, hz]) hy))⟩
-  | .builtin m nm a, hs => ⟨h _ (hs _ (mem_preorder_self _)),
-      AllNL.of_sub root h a (fun z hz y hy => hs y (mem_preorder_child (n := .builtin m nm a) (by simp [Node.children, hz]) hy))⟩
-  | .closure m x, hs => ⟨h _ (hs _ (mem_preorder_self _)),
-      AllN.of_sub root h x (fun y hy => hs y (mem_preorder_child (n := .closure m x) (by simp [Node.children]) hy))⟩
-  | .cond m cn a b, hs => ⟨h _ (hs _ (mem_preorder_self _)),
-      AllN.of_sub root h cn (fun y hy => hs y (mem_preorder_child (n := .cond m cn a b) (by simp [Node.children]) hy)),
-      AllN.of_sub root h a (fun y hy => hs y (mem_preorder_child (n := .cond m cn a b) (by simp [Node.children]) hy)),
-      AllN.of_sub root h b (fun y hy => hs y (mem_preorder_child (n := .cond m cn a b) (by simp [Node.children]) hy))⟩
-  | .array m xs, hs => ⟨h _ (hs _ (mem_preorder_self _)),
-      AllNL.of_sub root h xs (fun z hz y hy => hs y (mem_preorder_child (n := .array m xs) (by simp [Node.children, hz]) hy))⟩
-  | .map m ps, hs => ⟨h _ (hs _ (mem_preorder_self _)),
-      AllNL.of_sub root h ps (fun z hz y hy => hs y (mem_preorder_child (n := .map m ps) (by simp [Node.children, hz]) hy))⟩
-  | .pair m k v, hs => ⟨h _ (hs _ (mem_preorder_self _)),
-      AllN.of_sub root h k (fun y hy => hs y (mem_preorder_child (n := .pair m k v) (by simp [Node.children]) hy)),
-      AllN.of_sub root h v (fun y hy => hs y (mem_preorder_child (n := .pair m k v) (by simp [Node.children]) hy))⟩
-theorem AllNO.of_sub {p : Node → Prop} (root : Node) (h : ∀ m ∈ Node.preorder root, p m) :
-    ∀ o : Option Node, (∀ z, o = some z → ∀ m ∈ Node.preorder z, m ∈ Node.preorder root) → AllNO p o
-  | none, _ => trivial
-  | some n, hs => AllN.of_sub root h n (hs n rfl)
-theorem AllNL.of_sub {p : Node → Prop} (root : Node) (h : ∀ m ∈ Node.preorder root, p m) :
-    ∀ ns : List Node, (∀ z ∈ ns, ∀ m ∈ Node.preorder z, m ∈ Node.preorder root) → AllNL p ns
-  | [], _ => trivial
-  | n :: ns, hs => ⟨AllN.of_sub root h n (hs n (by simp)), AllNL.of_sub root h ns (fun z hz => hs z (by simp [hz]))⟩
+/-! ### every failure of `evalLoc` is raised at a node of the tree (whose own evaluation fails with that class) -/
+
+open ExprModel.Spec.SML in
+/-- every failure of the located computation satisfies `Q` -/
+structure FL (Q : ErrClass → Loc → Prop) {α : Type} (m : SML α) : Prop where
+  out : ∀ (σ : SState) (e : ErrClass) (l : Loc) (σ' : SState), m σ = (.error (e, l), σ') → Q e l
+
+section
+open ExprModel.Spec.SML
+variable {Q : ErrClass → Loc → Prop}
+
+theorem FL.bind {α β : Type} {m : SML α} {f : α → SML β} (hm : FL Q m) (hf : ∀ a, FL Q (f a)) : FL Q (m >>= f) := by
+  refine ⟨fun σ e l σ' h => ?_⟩
+  rw [SML.bind_apply] at h
+  cases hm' : m σ with
+  | mk r σ1 =>
+    rw [hm'] at h
+    cases r with
+    | ok a => exact (hf a).out σ1 e l σ' h
+    | error x =>
+      simp only [Prod.mk.injEq, Except.error.injEq] at h
+      obtain ⟨rfl, rfl⟩ := h
+      exact hm.out σ e l σ1 hm'
+
+theorem FL.pure {α : Type} (a : α) : FL Q (pure a : SML α) := by
+  refine ⟨fun σ e l σ' h => ?_⟩
+  rw [SML.pure_apply] at h
+  simp at h
+
+theorem FL.raised {α : Type} {l : Loc} (t : SM α) (h : ∀ e, Q e l) : FL Q (raisedAt l t) := by
+  refine ⟨fun σ e l' σ' hr => ?_⟩
+  rw [raisedAt_apply] at hr
+  cases ht : t σ with
+  | mk r σ1 =>
+    rw [ht] at hr
+    cases r with
+    | ok a => simp at hr
+    | error x =>
+      simp only [Prod.mk.injEq, Except.error.injEq] at hr
+      obtain ⟨⟨rfl, rfl⟩, _⟩ := hr
+      exact h _
+
+theorem FL.ite {α : Type} {p : Prop} [Decidable p] {a b : SML α} (ha : FL Q a) (hb : FL Q b) :
+    FL Q (if p then a else b) := by
+  by_cases h : p <;> simp only [h, if_true, if_false] <;> assumption
+
+theorem FL.loopIdxL {α : Type} {body : Nat → α → SML (α ⊕ Val)} (h : ∀ i acc, FL Q (body i acc)) :
+    ∀ (fuel i : Nat) (acc : α), FL Q (loopIdxL body fuel i acc)
+  | 0, _, _ => FL.pure _
+  | fuel + 1, i, acc => by
+    rw [loopIdxL_succ]
+    refine FL.bind (h i acc) (fun r => ?_)
+    cases r with
+    | inl a => exact FL.loopIdxL h fuel (i + 1) a
+    | inr v => exact FL.pure _
+
+theorem FL.mono {Q' : ErrClass → Loc → Prop} {α : Type} {m : SML α} (h : FL Q m) (hq : ∀ e l, Q e l → Q' e l) :
+    FL Q' m := ⟨fun σ e l σ' hm => hq e l (h.out σ e l σ' hm)⟩
 end
 
-/-- the blame obligations of a whole tree hold for `InnerBlame` -/
-theorem allBlame_inner (c : Cfg) (P : LProg) (root : Node) (hP : P.blame = InnerBlame c root) : AllBlame c P root := by
-  refine AllN.of_sub root ?_ root (fun m hm => hm)
-  intro m hm ctx σ e σ' hev
-  rw [hP]
-  exact ⟨m, hm, rfl, ctx, σ, by rw [hev]⟩
+/-- `l` is the location of a node of `root` whose own evaluation (in some closure context and state) fails with `e` -/
+def Inner (sc : SCfg) (root : Node) (e : ErrClass) (l : Loc) : Prop :=
+  ∃ m ∈ Node.preorder root, m.loc = l ∧ ∃ ctx σ, (eval sc ctx m σ).1 = .error e
+
+theorem Inner.child {sc : SCfg} {n x : Node} {e : ErrClass} {l : Loc} (hx : x ∈ n.children) (h : Inner sc x e l) :
+    Inner sc n e l := by
+  obtain ⟨m, hm, hl, hc⟩ := h
+  exact ⟨m, mem_preorder_child hx hm, hl, hc⟩
+
+/-- what one node adds: a failure at its own location, or a failure inside a child -/
+def Own (sc : SCfg) (n : Node) (e : ErrClass) (l : Loc) : Prop := l = n.loc ∨ ∃ x ∈ n.children, Inner sc x e l
+
+theorem Own.inner {sc : SCfg} {ctx : Ctx} {n : Node} (h : FL (Own sc n) (evalLoc sc ctx n)) : FL (Inner sc n) (evalLoc sc ctx n) := by
+  refine ⟨fun σ e l σ' hev => ?_⟩
+  rcases h.out σ e l σ' hev with rfl | ⟨x, hx, hi⟩
+  · exact ⟨n, mem_preorder_self n, rfl, ctx, σ, by rw [eval_of_evalLoc_error hev]⟩
+  · exact hi.child hx
+
+theorem FL.ofChild {sc : SCfg} {n x : Node} {α : Type} {m : SML α} (hx : x ∈ n.children) (h : FL (Inner sc x) m) :
+    FL (Own sc n) m := h.mono (fun e l hi => .inr ⟨x, hx, hi⟩)
+
+/-- the combinators, applied as far as they go; what remains are the sub-evaluations -/
+macro "fl_auto" : tactic => `(tactic| repeat' first
+  | (apply FL.raised; intro _; exact Or.inl rfl)
+  | apply FL.pure
+  | apply FL.bind
+  | apply FL.ite
+  | apply FL.loopIdxL
+  | (apply_assumption)
+  | intro _)
+
+/-- lists: a failure is inside one of the elements -/
+def InnerL (sc : SCfg) (ns : List Node) (e : ErrClass) (l : Loc) : Prop := ∃ x ∈ ns, Inner sc x e l
+
+mutual
+theorem evalLoc_inner (sc : SCfg) : (n : Node) → ∀ ctx, FL (Inner sc n) (evalLoc sc ctx n)
+  | .nil m, ctx => by rw [evalLoc_nil]; exact FL.pure _
+  | .int m v, ctx => by rw [evalLoc_int]; exact FL.pure _
+  | .float m v, ctx => by rw [evalLoc_float]; exact FL.pure _
+  | .bool m v, ctx => by rw [evalLoc_bool]; exact FL.pure _
+  | .str m v, ctx => by rw [evalLoc_str]; exact FL.pure _
+  | .const m v, ctx => by rw [evalLoc_const]; exact FL.pure _
+  | .ident m name ns, ctx => by
+    refine Own.inner ?_
+    rw [evalLoc_ident]; fl_auto
+  | .pointer m, ctx => by
+    refine Own.inner ?_
+    rw [evalLoc_pointer]; fl_auto
+  | .unary m op x, ctx => by
+    have hx : ∀ ctx, FL (Own sc (.unary m op x)) (evalLoc sc ctx x) :=
+      fun ctx => FL.ofChild (by simp [Node.children]) (evalLoc_inner sc x ctx)
+    refine Own.inner ?_
+    rw [evalLoc_unary]; fl_auto
+  | .binary m op l r, ctx => by
+    have hl : ∀ ctx, FL (Own sc (.binary m op l r)) (evalLoc sc ctx l) :=
+      fun ctx => FL.ofChild (by simp [Node.children]) (evalLoc_inner sc l ctx)
+    have hr : ∀ ctx, FL (Own sc (.binary m op l r)) (evalLoc sc ctx r) :=
+      fun ctx => FL.ofChild (by simp [Node.children]) (evalLoc_inner sc r ctx)
+    refine Own.inner ?_
+    rw [evalLoc_binary]; fl_auto
+  | .matches m hasRe l r, ctx => by
+    have hl : ∀ ctx, FL (Own sc (.matches m hasRe l r)) (evalLoc sc ctx l) :=
+      fun ctx => FL.ofChild (by simp [Node.children]) (evalLoc_inner sc l ctx)
+    have hr : ∀ ctx, FL (Own sc (.matches m hasRe l r)) (evalLoc sc ctx r) :=
+      fun ctx => FL.ofChild (by simp [Node.children]) (evalLoc_inner sc r ctx)
+    refine Own.inner ?_
+    rw [evalLoc_matches]; fl_auto
+  | .prop m x name ns, ctx => by
+    have hx : ∀ ctx, FL (Own sc (.prop m x name ns)) (evalLoc sc ctx x) :=
+      fun ctx => FL.ofChild (by simp [Node.children]) (evalLoc_inner sc x ctx)
+    refine Own.inner ?_
+    rw [evalLoc_prop]; fl_auto
+  | .index m x i, ctx => by
+    have hx : ∀ ctx, FL (Own sc (.index m x i)) (evalLoc sc ctx x) :=
+      fun ctx => FL.ofChild (by simp [Node.children]) (evalLoc_inner sc x ctx)
+    have hi : ∀ ctx, FL (Own sc (.index m x i)) (evalLoc sc ctx i) :=
+      fun ctx => FL.ofChild (by simp [Node.children]) (evalLoc_inner sc i ctx)
+    refine Own.inner ?_
+    rw [evalLoc_index]; fl_auto
+  | .slice m x none none, ctx => by
+    have hx : ∀ ctx, FL (Own sc (.slice m x none none)) (evalLoc sc ctx x) :=
+      fun ctx => FL.ofChild (by simp [Node.children]) (evalLoc_inner sc x ctx)
+    refine Own.inner ?_
+    rw [evalLoc]; dsimp only; fl_auto
+  | .slice m x (some f) none, ctx => by
+    have hx : ∀ ctx, FL (Own sc (.slice m x (some f) none)) (evalLoc sc ctx x) :=
+      fun ctx => FL.ofChild (by simp [Node.children]) (evalLoc_inner sc x ctx)
+    have hf : ∀ ctx, FL (Own sc (.slice m x (some f) none)) (evalLoc sc ctx f) :=
+      fun ctx => FL.ofChild (by simp [Node.children]) (evalLoc_inner sc f ctx)
+    refine Own.inner ?_
+    rw [evalLoc]; dsimp only; fl_auto
+  | .slice m x none (some t), ctx => by
+    have hx : ∀ ctx, FL (Own sc (.slice m x none (some t))) (evalLoc sc ctx x) :=
+      fun ctx => FL.ofChild (by simp [Node.children]) (evalLoc_inner sc x ctx)
+    have ht : ∀ ctx, FL (Own sc (.slice m x none (some t))) (evalLoc sc ctx t) :=
+      fun ctx => FL.ofChild (by simp [Node.children]) (evalLoc_inner sc t ctx)
+    refine Own.inner ?_
+    rw [evalLoc]; dsimp only; fl_auto
+  | .slice m x (some f) (some t), ctx => by
+    have hx : ∀ ctx, FL (Own sc (.slice m x (some f) (some t))) (evalLoc sc ctx x) :=
+      fun ctx => FL.ofChild (by simp [Node.children]) (evalLoc_inner sc x ctx)
+    have hf : ∀ ctx, FL (Own sc (.slice m x (some f) (some t))) (evalLoc sc ctx f) :=
+      fun ctx => FL.ofChild (by simp [Node.children]) (evalLoc_inner sc f ctx)
+    have ht : ∀ ctx, FL (Own sc (.slice m x (some f) (some t))) (evalLoc sc ctx t) :=
+      fun ctx => FL.ofChild (by simp [Node.children]) (evalLoc_inner sc t ctx)
+    refine Own.inner ?_
+    rw [evalLoc]; dsimp only; fl_auto
+  | .method m x name args ns, ctx => by
+    have hx : ∀ ctx, FL (Own sc (.method m x name args ns)) (evalLoc sc ctx x) :=
+      fun ctx => FL.ofChild (by simp [Node.children]) (evalLoc_inner sc x ctx)
+    have ha : ∀ ctx, FL (Own sc (.method m x name args ns)) (evalListLoc sc ctx args) :=
+      fun ctx => (evalListLoc_inner sc args ctx).mono (fun e l ⟨y, hy, hi⟩ => .inr ⟨y, by simp [Node.children, hy], hi⟩)
+    refine Own.inner ?_
+    rw [evalLoc_method]; fl_auto
+  | .func m name args fast, ctx => by
+    have ha : ∀ ctx, FL (Own sc (.func m name args fast)) (evalListLoc sc ctx args) :=
+      fun ctx => (evalListLoc_inner sc args ctx).mono (fun e l ⟨y, hy, hi⟩ => .inr ⟨y, by simp [Node.children, hy], hi⟩)
+    refine Own.inner ?_
+    rw [evalLoc_func]; fl_auto
+  | .builtin m name [], ctx => by
+    refine Own.inner ?_
+    rw [evalLoc]
+    all_goals first | (exact FL.raised _ (fun _ => .inl rfl)) | (intros; contradiction)
+  | .builtin m name [a], ctx => by
+    have ha : ∀ ctx, FL (Own sc (.builtin m name [a])) (evalLoc sc ctx a) :=
+      fun ctx => FL.ofChild (by simp [Node.children]) (evalLoc_inner sc a ctx)
+    refine Own.inner ?_
+    by_cases hn : name = "len"
+    · subst hn
+      rw [evalLoc_len]; fl_auto
+    · rw [evalLoc]
+      all_goals first | (exact FL.raised _ (fun _ => .inl rfl)) | (intros; simp_all)
+  | .builtin m name [a, b], ctx => by
+    have ha : ∀ ctx, FL (Own sc (.builtin m name [a, b])) (evalLoc sc ctx a) :=
+      fun ctx => FL.ofChild (by simp [Node.children]) (evalLoc_inner sc a ctx)
+    have hb : ∀ ctx, FL (Own sc (.builtin m name [a, b])) (evalLoc sc ctx b) :=
+      fun ctx => FL.ofChild (by simp [Node.children]) (evalLoc_inner sc b ctx)
+    refine Own.inner ?_
+    rw [evalLoc]
+    dsimp only
+    fl_auto
+  | .builtin m name (a :: b :: d :: rest), ctx => by
+    refine Own.inner ?_
+    rw [evalLoc]
+    all_goals first | (exact FL.raised _ (fun _ => .inl rfl)) | (intros; simp_all)
+  | .closure m x, ctx => by
+    refine ⟨fun σ e l σ' h => ?_⟩
+    rw [evalLoc_closure] at h
+    exact ((evalLoc_inner sc x ctx).out σ e l σ' h).child (n := .closure m x) (by simp [Node.children])
+  | .cond m cn a b, ctx => by
+    have hc : ∀ ctx, FL (Own sc (.cond m cn a b)) (evalLoc sc ctx cn) :=
+      fun ctx => FL.ofChild (by simp [Node.children]) (evalLoc_inner sc cn ctx)
+    have ha : ∀ ctx, FL (Own sc (.cond m cn a b)) (evalLoc sc ctx a) :=
+      fun ctx => FL.ofChild (by simp [Node.children]) (evalLoc_inner sc a ctx)
+    have hb : ∀ ctx, FL (Own sc (.cond m cn a b)) (evalLoc sc ctx b) :=
+      fun ctx => FL.ofChild (by simp [Node.children]) (evalLoc_inner sc b ctx)
+    refine Own.inner ?_
+    rw [evalLoc_cond]; fl_auto
+  | .array m xs, ctx => by
+    have ha : ∀ ctx, FL (Own sc (.array m xs)) (evalListLoc sc ctx xs) :=
+      fun ctx => (evalListLoc_inner sc xs ctx).mono (fun e l ⟨y, hy, hi⟩ => .inr ⟨y, by simp [Node.children, hy], hi⟩)
+    refine Own.inner ?_
+    rw [evalLoc_array]; fl_auto
+  | .map m ps, ctx => by
+    have ha : ∀ ctx, FL (Own sc (.map m ps)) (evalListLoc sc ctx ps) :=
+      fun ctx => (evalListLoc_inner sc ps ctx).mono (fun e l ⟨y, hy, hi⟩ => .inr ⟨y, by simp [Node.children, hy], hi⟩)
+    refine Own.inner ?_
+    rw [evalLoc_map]; fl_auto
+  | .pair m k v, ctx => by
+    refine Own.inner ?_
+    exact FL.raised (l := m.loc) (SM.fail .badop) (fun _ => .inl rfl)
+theorem evalListLoc_inner (sc : SCfg) : (ns : List Node) → ∀ ctx, FL (InnerL sc ns) (evalListLoc sc ctx ns)
+  | [], ctx => by rw [evalListLoc_nil]; exact FL.pure _
+  | .pair m k v :: rest, ctx => by
+    have hk : ∀ ctx, FL (InnerL sc (.pair m k v :: rest)) (evalLoc sc ctx k) := fun ctx =>
+      (evalLoc_inner sc k ctx).mono (fun e l hi => ⟨.pair m k v, by simp, hi.child (by simp [Node.children])⟩)
+    have hv : ∀ ctx, FL (InnerL sc (.pair m k v :: rest)) (evalLoc sc ctx v) := fun ctx =>
+      (evalLoc_inner sc v ctx).mono (fun e l hi => ⟨.pair m k v, by simp, hi.child (by simp [Node.children])⟩)
+    have hr : ∀ ctx, FL (InnerL sc (.pair m k v :: rest)) (evalListLoc sc ctx rest) := fun ctx =>
+      (evalListLoc_inner sc rest ctx).mono (fun e l ⟨y, hy, hi⟩ => ⟨y, by simp [hy], hi⟩)
+    rw [evalListLoc_pair]; fl_auto
+  | n :: rest, ctx => by
+    have hn : ∀ ctx, FL (InnerL sc (n :: rest)) (evalLoc sc ctx n) := fun ctx =>
+      (evalLoc_inner sc n ctx).mono (fun e l hi => ⟨n, by simp, hi⟩)
+    have hr : ∀ ctx, FL (InnerL sc (n :: rest)) (evalListLoc sc ctx rest) := fun ctx =>
+      (evalListLoc_inner sc rest ctx).mono (fun e l ⟨y, hy, hi⟩ => ⟨y, by simp [hy], hi⟩)
+    by_cases hp : isPair n = false
+    · rw [evalListLoc_cons _ _ _ _ hp]; fl_auto
+    · cases n <;> simp [isPair] at hp
+      rename_i m k v
+      have hk : ∀ ctx, FL (InnerL sc (.pair m k v :: rest)) (evalLoc sc ctx k) := fun ctx =>
+        (evalLoc_inner sc k ctx).mono (fun e l hi => ⟨.pair m k v, by simp, hi.child (by simp [Node.children])⟩)
+      have hv : ∀ ctx, FL (InnerL sc (.pair m k v :: rest)) (evalLoc sc ctx v) := fun ctx =>
+        (evalLoc_inner sc v ctx).mono (fun e l hi => ⟨.pair m k v, by simp, hi.child (by simp [Node.children])⟩)
+      rw [evalListLoc_pair]; fl_auto
+end
+
+theorem inner_eq (c : Cfg) (root : Node) : InnerBlame c root = Inner (specOf c) root := rfl
+
+/-- the root obligation of the weaker blame relation -/
+theorem innerBlame_root (c : Cfg) (root : Node) : BAt (InnerBlame c root) (evalLoc (specOf c) [] root) {} :=
+  fun e l σ' h => (evalLoc_inner (specOf c) root []).out {} e l σ' h
 
 end ExprModel.Refine
 
